@@ -2672,3 +2672,11 @@ package sarama
 //@   callsite partitionMovements.movePartition: requires[recorded_from_the_current_owner_to_the_new_one] $partition == partition && $oldConsumer == old(currentPartitionConsumer[partition]) && $newConsumer == newConsumer
 //@   ensures[ownership_updated] currentPartitionConsumer[partition] == newConsumer
 //@   nosafety
+
+// (C18) a panicking interceptor is contained: the deferred function of safelyApplyInterceptor recovers whatever the
+// interceptor raised and itself never panics (the panic obligation of any panic(...) it contained would have to be
+// unreachable); that a deferred recover() stops the panic of the interceptor call is Go's semantics (T-stdlib).
+//@ func ProducerMessage.safelyApplyInterceptor#lit0() props C18
+//@   nopanic[recovered_not_raised_again]
+//@ func ConsumerMessage.safelyApplyInterceptor#lit0() props C18
+//@   nopanic[recovered_not_raised_again]
